@@ -97,6 +97,9 @@ fn build(r: &(Vec<RawCycle>, Vec<u8>), binary: bool) -> TextSessionCase {
             // the GUI keeps asking `isready` while the engine thinks (two threads write to one stdout)
             g.pings = 8 + (c.b % 40) as u8;
         }
+        if g.stop_after_ms.map_or(false, |ms| ms >= 80) && extras[(i + 2) % extras.len()] % 2 == 0 {
+            g.midsearch_line = Some(["ucinewgame", "debug on", "debug off", "ucinewgame"][(c.b / 64 % 4) as usize].to_string());
+        }
         steps.push(TStep::Go(g));
         // now and then a search that runs for more than a second (time fields beyond 999 ms, many poll reports)
         if i == 0 && extras[5] == 11 {
@@ -487,7 +490,15 @@ pub fn check_session(case: &TextSessionCase, ctx: &mut Ctx) -> Result<(), String
                     ctx.class("go_ponder_then_ponderhit");
                 }
                 if let Some(ms) = g.stop_after_ms {
-                    std::thread::sleep(std::time::Duration::from_millis(ms));
+                    if let Some(mid) = &g.midsearch_line {
+                        std::thread::sleep(std::time::Duration::from_millis(ms / 3));
+                        ch.line(mid)?;
+                        trace.push(format!("(after {} ms) {mid}", ms / 3));
+                        ctx.class("command_line_in_the_middle_of_a_search");
+                        std::thread::sleep(std::time::Duration::from_millis(ms - ms / 3));
+                    } else {
+                        std::thread::sleep(std::time::Duration::from_millis(ms));
+                    }
                     ch.line("stop")?;
                     nt = true;
                 } else if g.is_unbounded() {
